@@ -1,4 +1,4 @@
-\* designed machine, layout + termination: two colliding names, real file size (32 entries = 512 bytes),
+\* designed machine, layout + termination: two colliding names, NO listfile at the start (compact may refuse),
 \* two entries of slack, up to 7 calls; every started call finishes (liveness under weak fairness of the steps)
 CONSTANTS
   H = 4
@@ -8,12 +8,12 @@ CONSTANTS
   InitTok <- LInitTok
   InitRaw = {}
   SubOf <- LSub
-  HasLF0 = TRUE
+  HasLF0 = FALSE
   HasAT0 = FALSE
   Slack = 2
   FU = 32
   Ver = 1
-  MaxCalls = 4
+  MaxCalls = 5
   MCToks = {"t1"}
 SPECIFICATION MCFairSpec
 INVARIANT SlotType TableInv ProbeBounded TablesDisjointFromData NoDamage
